@@ -94,7 +94,10 @@ pub fn main(args: &[String]) {
     for i in 0..ngen {
         let base = rng.pick(&corp); let lib = base.kind == "lib";
         let atoms = if lib { gen::LIB_ATOMS } else { gen::SV_ATOMS };
-        let (t, tag) = match i % 4 {
+        let (t, tag) = match i % 5 {
+            // every optional slot of the two root productions filled: the compilation unit starts with a timeunits declaration
+            4 if !lib => (format!("{}{}", rng.pick_str(&["timeunit 1ns;\n", "timeunit 1ns / 1ps;\n", "timeprecision 1ps;\n", "// h\ntimeunit 1ns;\ntimeprecision 1ps;\n", "timeprecision 1ps;\ntimeunit 1ns;\n"]), base.text), "timeunits-first"),
+            4 => (format!("{}\n{}", base.text, rng.pick(&corp).text), "good+good"),
             0 => (gen::mutate(&base.text, &mut rng, atoms), "mutated"),
             1 => { let b2 = rng.pick(&corp); (format!("{}\n{}", base.text, gen::mutate(&b2.text, &mut rng, atoms)), "good+mutated") }
             2 => (gen::soup(&mut rng, atoms, 20), "soup"),
@@ -109,7 +112,7 @@ pub fn main(args: &[String]) {
         let (t, lib) = (t.clone(), *lib);
         match std::panic::catch_unwind(std::panic::AssertUnwindSafe(|| check_one(&t, lib, i as u64))) { Ok(r) => r, Err(e) => Err(format!("panic: {}", util::panic_msg(e))) }
     });
-    let mut rep = Report::new("every corpus program + mutated / concatenated / soup / truncated variants, both grammars, through parse_*_str with allow_incomplete on and off; non-trivial = incomplete-mode tree with >= 5 nodes; distinct by (grammar, text)");
+    let mut rep = Report::new("every corpus program + mutated / concatenated / soup / truncated variants + programs with a leading file-level timeunits declaration, both grammars, through parse_*_str with allow_incomplete on and off; non-trivial = incomplete-mode tree with >= 5 nodes; distinct by (grammar, text)");
     for ((t, lib, tag), r) in cases.iter().zip(results.into_iter()) {
         let key = format!("{}{}", lib, t);
         match r {
